@@ -242,3 +242,14 @@ type typesFunc = types.Func
 type typesPointer = types.Pointer
 
 func typesUnalias(t types.Type) types.Type { return types.Unalias(t) }
+
+type tokenT = token.Token
+
+const (
+	tokEQL = token.EQL
+	tokNEQ = token.NEQ
+	tokLEQ = token.LEQ
+	tokGTR = token.GTR
+	tokLSS = token.LSS
+	tokGEQ = token.GEQ
+)
